@@ -39,7 +39,7 @@ Proof.
   - exact S.
   - destruct S as [A [B C]]. split; [exact A|split; [exact B|exact C]].
   - rewrite t_insert_tset. apply snap_rel_tset; [exact S|reflexivity|].
-    intros o0 r0 Heq Hk. injection Heq as E1 E2. subst o0. destruct (H Hk) as [r1 Hs]. exists o, r1. split; assumption.
+    intros o0 r0 Heq Hk. injection Heq as E1 E2. subst o0. destruct (H Hk) as [o1 [r1 [Hs He]]]. exists o1, r1. split; assumption.
   - destruct (t_delete_cases t k) as [[o [r [A B]]]|[_ B]]; rewrite B; [|exact S].
     apply snap_rel_tset; [exact S|reflexivity|]. intros; discriminate.
   - apply IHwstep2; [eapply wstep_twf; eassumption|apply IHwstep1; assumption].
